@@ -53,6 +53,9 @@ KERNELS = {
     "generate_ordered_map_to_inner_left_unique_partial": {"owner": "C03", "mutated": [4, 5]},
     "generate_ordered_map_to_inner_right_unique_partial": {"owner": "C03", "mutated": [4, 5]},
     "generate_ordered_map_to_inner_both_unique_partial": {"owner": "C03", "mutated": [4, 5]},
+    "compare_rows_for_journalling": {"owner": "C17", "mutated": [4]},          # returns None: the result is `to_keep`
+    "generate_ordered_map_to_left_both_unique": {"owner": "C19", "mutated": [2]},
+    "generate_ordered_map_to_left_right_unique": {"owner": "C19", "mutated": [2]},
 }
 C08_NOSRC = ("apply_spans_count", "apply_spans_index_of_first", "apply_spans_index_of_last")
 C08_REDUCE = ("apply_spans_count", "apply_spans_first", "apply_spans_last", "apply_spans_max", "apply_spans_min",
@@ -447,8 +450,64 @@ def random_c03(rng, n_cases):
     return out
 
 
+# ----------------------------------------------------------------------------------------------------------------------
+# C17: compare_rows_for_journalling on journalling maps (-1 = no row); C19: the flat left-map kernels on whole arrays
+# ----------------------------------------------------------------------------------------------------------------------
+
+def compare_rows_safe(om, nm, oldf, newf, tk):
+    """every subscript the kernel makes is in range (a negative row number within -len..-1 wraps, still in range)"""
+    if len(tk) < len(om):
+        return False
+    for i, o in enumerate(om):
+        if tk[i]:
+            continue
+        if o == -1:
+            continue
+        if i >= len(nm):
+            return False
+        if nm[i] == -1:
+            continue
+        if not (-len(oldf) <= o < len(oldf)) or not (-len(newf) <= nm[i] < len(newf)):
+            return False
+    return True
+
+
+def random_c17(rng, n_cases):
+    out = []
+    for t in range(n_cases):
+        no, nn = rng.randrange(0, 8), rng.randrange(0, 8)
+        n = rng.randrange(0, 10)
+        oldf = [rng.randrange(0, 4) for _ in range(no)]
+        newf = [rng.randrange(0, 4) for _ in range(nn)]
+        bad = rng.random() < 0.15
+        om = [-1 if rng.random() < 0.3 or no == 0 else rng.randrange(-no if bad else 0, no + (2 if bad else 0)) for _ in range(n)]
+        nm = [-1 if rng.random() < 0.3 or nn == 0 else rng.randrange(-nn if bad else 0, nn + (2 if bad else 0)) for _ in range(n)]
+        if rng.random() < 0.1:
+            nm = nm[:rng.randrange(0, n + 1)]
+        tk = [rng.random() < 0.3 for _ in range(n if rng.random() < 0.9 else rng.randrange(0, n + 1))]
+        out.append(gcase("compare_rows_for_journalling", [arr(om), arr(nm), arr(oldf), arr(newf), barr(tk)],
+                         unsafe=not compare_rows_safe(om, nm, oldf, newf, tk), _from="random"))
+    return out
+
+
+def random_c19(rng, n_cases):
+    out = []
+    for t in range(n_cases):
+        nl, nr = rng.randrange(0, 12), rng.randrange(0, 12)
+        bu = t % 2 == 0
+        first = _sorted_keys(rng, nl, bu)
+        second = _sorted_keys(rng, nr, True)
+        if rng.random() < 0.1:                       # keys that are not sorted / not unique: every subscript is still guarded
+            second = [rng.randrange(0, 6) for _ in range(nr)]
+        res = [7] * (nl if rng.random() < 0.9 else rng.randrange(0, nl + 3))      # a wrong length is an explicit ValueError
+        inv = rng.choice([-1, 2147483647, 4611686018427387904])
+        k = "generate_ordered_map_to_left_both_unique" if bu else "generate_ordered_map_to_left_right_unique"
+        out.append(gcase(k, [arr(first), arr(second), arr(res), {"int": inv}], fuel=nl + nr + 1, _from="random"))
+    return out
+
+
 DERIVE = {"C08": derive_c08, "C09": derive_c09, "C04": derive_c04}
-RANDOM = {"C08": random_c08, "C09": random_c09, "C04": random_c04, "C03": random_c03}
+RANDOM = {"C08": random_c08, "C09": random_c09, "C04": random_c04, "C03": random_c03, "C17": random_c17, "C19": random_c19}
 
 
 def extra_cases(owner, cases, tier, rng):
@@ -533,13 +592,12 @@ def impl(case):
     fn = getattr(ops, case["kernel"])
     args = [_decode(np, a) for a in case["args"]]
     ret = fn(*args)
-    parts = [_canon(np, x) for x in ret] if isinstance(ret, tuple) else [_canon(np, ret)]
-    mutated = KERNELS.get(case["kernel"], {}).get("mutated")
-    if mutated:                  # arrays the kernel writes in place are part of its result (translator: `mutated`)
-        val = parts + [_canon(np, args[i]) for i in mutated]
-    else:
-        val = parts if isinstance(ret, tuple) else parts[0]
-    return {"val": val}
+    # a kernel without `return` yields None: its result is what it stored into its array parameters
+    parts = [] if ret is None else [_canon(np, x) for x in ret] if isinstance(ret, tuple) else [_canon(np, ret)]
+    mutated = KERNELS.get(case["kernel"], {}).get("mutated") or []
+    # arrays the kernel writes in place are part of its result (translator: `mutated`)
+    vals = parts + [_canon(np, args[i]) for i in mutated]
+    return {"val": vals[0] if len(vals) == 1 and not isinstance(ret, tuple) else vals}
 
 
 def to_model(case):
